@@ -20,10 +20,7 @@ from embit.networks import NETWORKS
 from embit.script import Script, address_to_scriptpubkey
 
 PROP = "C11"
-MODS = ["EmbitModel.Props.C11"]
-for _extra in ("EmbitModel.Props.C11Detect", "EmbitModel.Props.C11X"):
-    if os.path.exists(os.path.join(VERIF, "lean", *_extra.split(".")) + ".lean"):
-        MODS.append(_extra)
+MODS = ["EmbitModel.Props.C11", "EmbitModel.Props.C11Detect", "EmbitModel.Props.C11X"]
 
 B58 = base58.B58_DIGITS
 CHARSET = bech32.CHARSET
@@ -385,6 +382,14 @@ def spec_valid_address(c, addr, script):
     Uses only the Lean spec encoder, synchronously."""
     k = classify_script(script)
     if k is None:
+        # a witness program of a later version (BIP350: v1 programs of 2..40 bytes, v2..v16): a valid address of a
+        # script type the property does not speak about; judged with the harness's own reference encoder
+        if (4 <= len(script) <= 42 and (script[0] == 0x51 or 0x52 <= script[0] <= 0x60) and script[1] == len(script) - 2
+                and addr in (addr.lower(), addr.upper())):
+            ver = script[0] - 0x50
+            for (_, _, _, hrp, _) in netparams():
+                if addr.lower() == ref_bech32(hrp, [ver] + ref_to5(script[2:]), 0x2BC830A3):
+                    return True, "future-witness-v%d" % ver
         return False, "not-a-standard-script"
     kind, payload = k
     lines = []
@@ -442,9 +447,11 @@ def check_spellings(c, addr, hrp, kind):
     d_up = i_bech32dec(hrp, up)
     c.expect("addr.to_script " + sx(up), a_up, info, proven=False)
     c.expect("bech32.dec %s %s" % (sx(hrp), sx(up)), d_up, info)
-    if a_up != "none":
-        c.fail("the all-upper-case spelling of a segwit address is not refused (theorem C11X.upper_case_spelling no longer "
-               "describes embit)", dict(info, op="addr.to_script", string=up, answer=a_up))
+    # embit's address_to_scriptpubkey refuses the all-upper-case form (theorem C11X.upper_case_spelling; the model
+    # comparison above notices a change); the property itself only demands that IF it is accepted it is the same address
+    if a_up != "none" and a_up != i_to_script(addr):
+        c.fail("the all-upper-case spelling of a segwit address decodes to another script than the address itself",
+               dict(info, op="addr.to_script", string=up, answer=a_up))
     if d_up == "none" or d_up != d_low:
         c.fail("bech32.decode does not accept the all-upper-case spelling of a valid address (BIP173; theorem "
                "C11X.segwit_decode_iff)", dict(info, op="bech32.dec", string=up, answer=d_up, lower_answer=d_low))
@@ -494,6 +501,11 @@ def check_to_script(c, kind, s, origin=None, hamming=None):
                         c.fail("a string within <= 4 data-part substitutions of an address decodes and is not the characterised "
                                "cross-variant neighbour (theorems C11X.cross_variant_iff / cross_variant_p2wpkh_none)",
                                dict(info, op="addr.to_script", script=hx(script), expected_only=neighbour59(origin[0])))
+                    else:
+                        c.fail("a bech32 string within four substitutions of a valid address yields a script (the BIP350 "
+                               "cross-variant neighbour)",
+                               dict(info, op="addr.to_script", kind="cross-variant-neighbour", characterised=True,
+                                    hamming=hamming, origin_kind=ko, got_kind=k, script=hx(script)))
                 c.tally("to_script:" + kind + ":valid-neighbour(cross-variant)" if hamming is not None and hamming <= 4
                         else "to_script:" + kind + ":valid-other-address")
         else:
@@ -747,6 +759,10 @@ def hostile_bech32(c, rng, n):
             kind = "bech32:random-string"
             must = bip_invalid = False
         a = check_to_script(c, kind, s)
+        if must and not bip_invalid:
+            # a string that IS valid under BIP173/BIP350 (later witness version, v1 program of another legal length):
+            # the property does not forbid a script for it; check_to_script has judged any script against the spec
+            must = kind == "bech32:unknown-hrp"
         if must and yields_script(a):
             c.fail("address decoding yields a script for %s" % kind, {"op": "addr.to_script", "string": s, "answer": a, "kind": kind})
         check_segwit_string(c, kind, s.split("1")[0].lower(), s, must_reject=bip_invalid)
@@ -880,9 +896,15 @@ def check_hop(c, addr, origin, search):
             c.fail("the constructed cross-variant neighbour is not the pattern of theorem C11X.cross_pattern", rec)
         ko = classify_script(origin[1])[0]
         ks = classify_script(bytes.fromhex(a[3:]))[0] if yields_script(a) and classify_script(bytes.fromhex(a[3:])) else None
-        if ks != {"p2wsh": "p2tr", "p2tr": "p2wsh"}.get(ko):
-            c.fail("the cross-variant neighbour of a p2wsh/p2tr address does not yield the script of the other type "
-                   "(theorem C11X.cross_variant_neighbour_accepted)", dict(rec, origin_kind=ko, got_kind=ks))
+        if ks == {"p2wsh": "p2tr", "p2tr": "p2wsh"}.get(ko) and ks is not None:
+            # the property's last clause ("never a script for a bech32 string with up to four substituted characters")
+            # fails at exactly this string for every BIP173/BIP350-conformant decoder: known finding C11-KF1
+            c.fail("a bech32 string within four substitutions of a valid address yields a script (the BIP350 cross-variant "
+                   "neighbour, theorem C11X.cross_variant_neighbour_accepted)",
+                   dict(rec, kind="cross-variant-neighbour", characterised=(s == neighbour59(addr)), hamming=ham,
+                        origin_kind=ko, got_kind=ks))
+        else:
+            c.tally("hop:59-symbols:neighbour-not-accepted-as-the-other-type")
         if search:
             sols = all_hops(59)
             c.tally("hop:59-symbols:solutions-with-version-flip=%d" % len(sols))
@@ -1106,9 +1128,17 @@ def explore(c, tier):
     c.flush()
 
 
+def kf_cross_variant(rec):
+    """C11-KF1: exactly the characterised BIP350 neighbour — four substitutions (version character and the symbols 45, 36,
+    16 places from the end) turn a p2wsh address into a valid p2tr address and vice versa"""
+    return (rec.get("kind") == "cross-variant-neighbour" and rec.get("characterised") is True and rec.get("hamming") == 4
+            and (rec.get("origin_kind"), rec.get("got_kind")) in (("p2wsh", "p2tr"), ("p2tr", "p2wsh")))
+
+
 def run(tier, seed):
     f = facts.addr_facts()
     c = Check(PROP, MODS, tier, seed)
+    c.classifiers["cross_variant_neighbour"] = kf_cross_variant
     c.rule = ("(a) byte strings for base58 (empty, all-zero, zero-prefixed, 0xff.., random up to 300 bytes) and strings over/outside "
               "the alphabet; (b) (hrp, version, program) triples: the full grid network-hrp x version 0-16 x length 2-40 (sampled in "
               "quick) plus out-of-range neighbours and hostile hrps; (c) the five standard script types x every network of "
